@@ -75,6 +75,42 @@ def run(tier, seed, only=None):
 
         run_obligations(rep, "LoadTransfer[%s]" % cn, obs, timeout, replay=lt_real, family=lambda ob: "LoadTransfer: " + ob.meta["family"],
                         fixed={"fem_origin": 0.35})
+        # ------------------------------------------------------------------ spar location taken from the surface dictionary
+        # (no override): the nodal loads of LoadTransfer(surface) act at the structural nodes ComputeNodes(surface) reports,
+        # for the boundary values and a non-default value of fem_origin
+        if (nx, ny) == cfgs(tier)[0][1:3]:
+            for fo in (0.0, 0.35, 0.625, 1.0):
+                sfo = dict(s, fem_origin=fo)
+                lt = SymComp("transfer.load_transfer", "LoadTransfer", surface=sfo)
+                cn_ = SymComp("structures.compute_nodes", "ComputeNodes", surface=sfo)
+                rep.encode(type(cn_.comp))
+                o2 = lt.sym1(ins)
+                nd = cn_.sym1({"mesh": mesh})["nodes"]
+                l2 = o2["loads"]
+                Fn2 = vsum([[l2[j, k] for k in range(3)] for j in range(ny)])
+                Mn2 = vsum([[l2[j, 3 + k] for k in range(3)] for j in range(ny)] +
+                           [cross([nd[j, k] - p[k] for k in range(3)], [l2[j, k] for k in range(3)]) for j in range(ny)])
+                obs = idents("sum F", Fn2, Fp, meta={"family": "nodal forces sum to the panel forces (spar location from the surface dictionary)", "fo": fo})
+                obs += idents("sum M about p", Mn2, Mp, meta={"family": "nodal loads at the structural nodes have the total moment of the panel forces (spar location from the surface dictionary)", "fo": fo})
+
+                def lt2_real(ob, env, sfo=sfo, ins=ins, fo=fo):
+                    vals = num_inputs(ins, env)
+                    real = SymComp("transfer.load_transfer", "LoadTransfer", surface=sfo).real(vals)["loads"]
+                    nodes_r = SymComp("structures.compute_nodes", "ComputeNodes", surface=sfo).real({"mesh": vals["def_mesh"]})["nodes"]
+                    m = vals["def_mesh"]
+                    Fv = vals["sec_forces"]
+                    pp = np.array([env.get("p[%d]" % k, 0.0) for k in range(3)])
+                    a = 0.5 * (0.75 * m[:-1, :-1] + 0.25 * m[1:, :-1] + 0.75 * m[:-1, 1:] + 0.25 * m[1:, 1:])
+                    k = ob.meta["idx"][0]
+                    if ob.id.startswith("sum F"):
+                        got, ref = real[:, :3].sum(axis=0)[k], Fv.sum(axis=(0, 1))[k]
+                    else:
+                        got = (real[:, 3:].sum(axis=0) + np.cross(nodes_r - pp, real[:, :3]).sum(axis=0))[k]
+                        ref = np.cross(a - pp, Fv).sum(axis=(0, 1))[k]
+                    return model.differs(got, ref, 1e-7), "fem_origin=%g, %s: nodal loads at the ComputeNodes nodes give %.9g, panel forces give %.9g" % (fo, ob.id, got, ref)
+
+                run_obligations(rep, "LoadTransfer + ComputeNodes, fem_origin=%g [%s]" % (fo, cn), obs, timeout, replay=lt2_real,
+                                family=lambda ob: "LoadTransfer: " + ob.meta["family"])
         # ------------------------------------------------------------------ MeshPointForces
         sc = SymComp("aerodynamics.mesh_point_forces", "MeshPointForces", surfaces=[s])
         rep.encode(type(sc.comp))
